@@ -1261,7 +1261,8 @@ def r19(F, R):
                 else:
                     R.ok("C14-R19", key, site, "count = max(count, total_pushed()), read before any reset")
     R.info("C14-R19", "stores into warmup_event_counts: %d" % n)
-    if n < 2:
+    feats = (([c for c in F.crates if c["name"] == "nuts_rs"] or [{}])[0].get("features") or [])
+    if n < 2 and "zarr" in feats:
         R.missing("C14-R19", "stores into warmup_event_counts in storage::zarr (sync and async record_sample; found %d)" % n)
 
 
